@@ -45,6 +45,8 @@ type Contract struct {
 	Implements []string
 	ClosureInv []*Clause
 	FreeReq    []*Clause // requires over free variables of a closure (established at creation)
+	FrameSeams [][2]string // (component, reason): the implementation writes a component its protocol excludes; separation from the protocol user's data is assumed and listed
+	CreateReq  []*Clause // checked where the closure is created, over the creator's variables; not assumed in the body
 	TrustedEns []*Clause // assumed by callers, not checked in the body (seams; listed in the evidence)
 	GhostEntry []*Clause
 	GhostExit  []*Clause
@@ -308,6 +310,15 @@ func (cs *Contracts) loadFile(path string) error {
 			cur.ClosureInv = append(cur.ClosureInv, cl)
 		case "free-requires":
 			cur.FreeReq = append(cur.FreeReq, cl)
+		case "creation-requires":
+			cur.CreateReq = append(cur.CreateReq, cl)
+		case "frame-seam":
+			fs2 := strings.SplitN(arg, " ", 2)
+			if len(fs2) < 2 {
+				return fmt.Errorf("%s: frame-seam COMPONENT reason", where)
+			}
+			cur.FrameSeams = append(cur.FrameSeams, [2]string{fs2[0], strings.TrimSpace(fs2[1])})
+			lastClause = nil
 		case "loop":
 			// loop K invariant EXPR
 			ps := strings.SplitN(arg, " ", 3)
@@ -409,6 +420,7 @@ func (cs *Contracts) ParseAll() error {
 		all = append(all, c.Asserts...)
 		all = append(all, c.ClosureInv...)
 		all = append(all, c.FreeReq...)
+		all = append(all, c.CreateReq...)
 		all = append(all, c.TrustedEns...)
 		all = append(all, c.GhostEntry...)
 		all = append(all, c.GhostExit...)
@@ -419,7 +431,7 @@ func (cs *Contracts) ParseAll() error {
 			all = append(all, l...)
 		}
 		for _, cl := range all {
-			if cl.Kind == "decreases" || cl.Kind == "invariant" || cl.Kind == "step" || cl.Kind == "exit" || cl.Kind == "entry" || cl.Kind == "requires" || cl.Kind == "ensures" || cl.Kind == "ensures-on-panic" || cl.Kind == "assert" || cl.Kind == "closure-invariant" || cl.Kind == "free-requires" || cl.Kind == "trusted-ensures" || cl.Kind == "ghost-entry" || cl.Kind == "ghost-exit" || cl.Kind == "ensures-before-exit" || cl.Kind == "closure-ghost" {
+			if cl.Kind == "decreases" || cl.Kind == "invariant" || cl.Kind == "step" || cl.Kind == "exit" || cl.Kind == "entry" || cl.Kind == "requires" || cl.Kind == "ensures" || cl.Kind == "ensures-on-panic" || cl.Kind == "assert" || cl.Kind == "closure-invariant" || cl.Kind == "free-requires" || cl.Kind == "creation-requires" || cl.Kind == "trusted-ensures" || cl.Kind == "ghost-entry" || cl.Kind == "ghost-exit" || cl.Kind == "ensures-before-exit" || cl.Kind == "closure-ghost" {
 				e, err := ParseExpr(cl.Text)
 				if err != nil {
 					return fmt.Errorf("%s: %v in %q", cl.Line, err, cl.Text)
@@ -518,6 +530,15 @@ func (cs *Contracts) inherit() error {
 			}
 			if base.Pure {
 				c.Pure = true
+			}
+			for _, fsm := range c.FrameSeams {
+				var nm []string
+				for _, m := range c.Modifies {
+					if m != "-"+fsm[0] {
+						nm = append(nm, m)
+					}
+				}
+				c.Modifies = nm
 			}
 			for _, o := range []string{"params", "results"} {
 				if _, ok := c.Opts[o]; !ok {
